@@ -15,14 +15,19 @@ ASSUMPTIONS = ['cooperative shims (Lock, ThreadPoolExecutor, virtual-time loop) 
                'wrapped function never swallows cancellation; loops are not restarted with a call pending except by asyncio.run shutdown']
 CORPUS_PREEMPTIONS = {}
 BUDGET = {'quick': 250, 'thorough': 5000}
-valid = G.valid
-simplify = G.simplify
+
+
+def simplify(case):
+    if case.get('kind') == 'gc':
+        return iter(())
+    return G.simplify(case)
 RULE = ('cases: as C01 plus more failing/cancelled invocations, caller cancels/timeouts and loops stopped/closed mid-computation; '
         'oracle: no deadlock/livelock/horizon overrun, and stall accounting in virtual time (a caller pending in the wrapper while no '
         'invocation of its key is live on a running loop accrues stall; allowed 0, or 60 s per other-loop death while it was pending). '
         'non-trivial: a cross-loop waiter existed while a computation was open, or a loop exited with an invocation open and a '
         'foreign caller of that key present; distinct by case hash')
 ESSENTIAL = ['cross-loop-wait', 'left-pending', 'inv-failed']
+ASSUMPTIONS_EXTRA = 'plus eight real-thread cases (own process each) in which a cyclic garbage collection starts inside the locked block while abandoned computations of closed loops wait to be freed'
 
 
 ENUM_EXHAUSTIVE = {'quick': 'every single-preemption schedule (decision index x target thread) of the canonical small programs in cache_common.canonical_programs',
@@ -37,7 +42,48 @@ def strategy(tier):
     return G.case_strategy('c05')
 
 
+GC_CASES = [{'kind': 'gc', 'abandoned': a, 'same_key': k, 'collect_at': n}
+            for a in (1, 2) for k in (True, False) for n in (1, 2)]
+
+
+def _run_gc(case):
+    """A cyclic garbage collection starting inside the wrapper's locked block while abandoned computations of closed
+    loops are waiting to be freed (real threads, own process): the later call must still finish."""
+    import json
+    import os
+    import subprocess
+    import sys
+    from vf.runner import ROOT, REPO
+    env = dict(os.environ, PYTHONPATH=ROOT + os.pathsep + os.environ.get('PYTHONPATH', ''))
+    try:
+        p = subprocess.run([sys.executable, '-m', 'vf.harness.gc_probe', json.dumps(case), REPO], capture_output=True, text=True,
+                           timeout=60, env=env, cwd=ROOT)
+        res = json.loads(p.stdout.strip().splitlines()[-1])
+    except Exception as e:  # noqa
+        raise HarnessError('gc probe failed: %r' % (e,))
+    viol = []
+    if not res['finished']:
+        viol.append(V('hang', f"a call that allocates inside the wrapper's locked block while a garbage collection frees "
+                      f"{case['abandoned']} abandoned computation(s) of closed loops never finished (not even its own 3 s timeout "
+                      f"fired): {res}", 'hang:gc-inside-locked-block'))
+    return Result(viol, True, ['kind=gc', 'nontrivial'], res)
+
+
+def valid(case):
+    if case.get('kind') == 'gc':
+        return case.get('abandoned') in (1, 2) and case.get('collect_at') in (1, 2, 3) and isinstance(case.get('same_key'), bool)
+    return G.valid(case)
+
+
+def extra(tier, seed_, col):
+    for case in GC_CASES:
+        col.add(case, _run_gc(case))
+        col.stats['gc_probes'] = col.stats.get('gc_probes', 0) + 1
+
+
 def run_case(case):
+    if case.get('kind') == 'gc':
+        return _run_gc(case)
     hist = H.run(case)
     died, harness = thread_exc_violations(hist['thread_excs'], V)
     if harness:
